@@ -73,7 +73,8 @@ class C02(Prop):
 
     def generate(self, rng, tier, idx):
         mode = "real" if rng.random() < 0.3 else "tagged"
-        plan = gen_session(rng, tier, peer_mode=mode, nsolves=rng.choice([1, 1, 2]), allow_heuristic=True)
+        plan = gen_session(rng, tier, peer_mode=mode, nsolves=rng.choice([1, 1, 2, 2] if mode == "real" else [1, 1, 2]),
+                           allow_heuristic=True, edit_bias="metric")
         for op in plan["ops"]:
             if op["op"] == "solve" and op["cfg"].get("heuristic") and mode == "real":
                 op["peer"]["solver"] = "CLARABEL"
